@@ -408,6 +408,24 @@ func wideFanRepo(r *rng) ([]gObj, []int64) {
 	return objs, []int64{1500000000, 1500000000, 1500000000, 1500000000}
 }
 
+// a path longer than 64 KiB: 262-300 nested directories with 250-byte names over one file. `rev-list --objects`
+// prints "<oid> <path>" lines of any length (a line reader with a 64-KiB token limit aborts: finding F22)
+func longPathRepo(r *rng) ([]gObj, []int64) {
+	objs := []gObj{{kind: 'b', size: uint64(5 + r.n(20))}}
+	objs = append(objs, gObj{kind: 't', entries: []gEntry{{0o100644, []byte("f"), 0}}})
+	depth := 262 + r.n(39)
+	for d := 0; d < depth; d++ {
+		name := []byte(strings.Repeat(string(rune('a'+d%26)), 250))
+		objs = append(objs, gObj{kind: 't', entries: []gEntry{{0o40000, name, len(objs) - 1}}})
+	}
+	objs = append(objs, gObj{kind: 'c', tree: len(objs) - 1, pad: r.n(30)})
+	times := make([]int64, len(objs))
+	for i := range times {
+		times[i] = 1500000000
+	}
+	return objs, times
+}
+
 // "subtree split": a directory Z with many entries is the ROOT tree of the newest commit (so it is finished
 // and cited before anything names it) and, in an older commit on another branch, the LAST subdirectory of a
 // root that has other subdirectories before it: every entry reported to the path resolver must carry its
@@ -973,6 +991,9 @@ func init() {
 			if i%160 == 77 {
 				objs, times = wideFanRepo(r) // once per 160 cases: it costs seconds, not milliseconds
 			}
+			if i%160 == 99 {
+				objs, times = longPathRepo(r)
+			}
 			objs = realSizes(objs, times)
 			refs := genE2ERefs(r, objs)
 			layout := []string{"loose", "loose", "packed", "gc", "bitmap", "bitmap", "alternates", "promisor"}[r.n(8)]
@@ -993,6 +1014,13 @@ func init() {
 			}
 			args, roots := genSelection(r, objs, refs)
 			style := []string{"full", "full", "hash", "none"}[r.n(4)]
+			if i%160 == 99 {
+				// the long-path repository: one branch, all references walked, loose objects (a listing taken from a
+				// bitmap prints no paths at all)
+				refs = []string{fmt.Sprintf("refs/heads/main=%d", len(objs)-1)}
+				args, roots = nil, []int{len(objs) - 1}
+				layout = "loose"
+			}
 			if r.coin(1, 40) {
 				// a ROOT that is not ONE revision although it expands to one line: `X^@` of a commit with exactly one
 				// parent, `X^!` of a root commit. The run must fail; if it is accepted, its descriptions are built from
